@@ -3,14 +3,14 @@
    (stop_cause, stop_queue facts, owner_in, all_done, started, fresh_fields, ...), the invariants, the proofs
    and the non-vacuity Examples are in srv/SrvC08.v (effects of critical sections, invariant bundle, no crash),
    srv/SrvC08b.v (stop once, status, WaitStatus after the handlers), srv/SrvC08c.v (cancellation, retained
-   notifications, restart), srv/SrvC08q.v (quiescence, termination), srv/SrvC08u.v (unblocking channels), srv/SrvC08r.v (drained notifications)
-   and srv/SrvC08x.v (scenarios).
+   notifications, restart), srv/SrvC08q.v (quiescence, termination), srv/SrvC08u.v (unblocking channels), srv/SrvC08r.v (drained notifications),
+   srv/SrvC08x.v (scenarios) and srv/SrvC08y.v (the flags of ServerStatus).
    All statements quantify over ALL configurations, ALL reachable states (reach = window boundaries, reachf =
    every intermediate state too) and ALL traces; there are no bounds.
    OWaitRet carries an [option stopcause]: "at most one flag" holds by type. *)
 From Coq Require Import List NArith ZArith Bool Arith Lia.
 From RecordUpdate Require Import RecordUpdate.
-From JV Require Import Bytes Msg SrvModel SrvLemmas SrvBasics SrvC10 SrvC08 SrvC08b SrvC08c SrvC08q SrvC08r SrvC08s SrvC08u.
+From JV Require Import Bytes Msg SrvModel SrvLemmas SrvBasics SrvC10 SrvC08 SrvC08b SrvC08c SrvC08q SrvC08r SrvC08s SrvC08u SrvC08y.
 Import ListNotations.
 
 (** 1. No interleaving makes the process panic: none of the model's crash outcomes (CrNilChannel = deliver
@@ -98,6 +98,86 @@ Theorem c08_status_cause : forall c s l s1 os tr s2 oss, reach c s -> step s l =
     (forall os' r, In os' oss -> In (OWaitRet r) os' -> r = Some k).
 Proof. exact status_cause. Qed.
 Print Assumptions c08_status_cause.
+
+(* the three fields of ServerStatus: [status_of e] = (Err, Stopped, Closed) is WaitStatus of server.go applied to
+   the recorded cause (Closed for io.EOF or a closing error, Stopped for errServerStopped, Err otherwise) *)
+Theorem c08_status_of_table :
+  status_of None = (None, false, false) /\ status_of (Some SCStop) = (None, true, false) /\
+  status_of (Some SCEOF) = (None, false, true) /\ status_of (Some SCClosing) = (None, false, true) /\
+  status_of (Some SCOther) = (Some SCOther, false, false).
+Proof. exact status_of_table. Qed.
+Print Assumptions c08_status_of_table.
+
+Theorem c08_status_one_flag : forall e, st_stopped e && st_closed e = false.
+Proof. exact status_of_one_flag. Qed.
+Print Assumptions c08_status_one_flag.
+
+Theorem c08_status_err_no_flag : forall e, st_err e <> None ->
+  st_stopped e = false /\ st_closed e = false /\ st_err e = Some SCOther.
+Proof. exact status_of_err_no_flag. Qed.
+Print Assumptions c08_status_err_no_flag.
+
+(* [flags s l r]: r is classified by the window (state s, label l) that stopped the run: Stopped iff it was a Stop
+   call, Closed iff the reader held EOF or a closing error, Err iff it held another error; never two at once *)
+Theorem c08_flags_spec : forall s l r, flags s l r <->
+  (st_stopped r = true <-> (exists n, l = LRelStop n) \/ (l = LRelRead /\ rd s = RHold (FErr SCStop))) /\
+  (st_closed r = true <-> l = LRelRead /\ (rd s = RHold (FErr SCEOF) \/ rd s = RHold (FErr SCClosing))) /\
+  (st_err r <> None <-> l = LRelRead /\ rd s = RHold (FErr SCOther)) /\
+  (st_err r = None \/ st_err r = Some SCOther) /\
+  st_stopped r && st_closed r = false.
+Proof. exact flags_spec. Qed.
+Print Assumptions c08_flags_spec.
+
+Theorem c08_flags_go_spec : forall s l r, flags_go s l r <->
+  (st_stopped r = true <-> exists n, l = LRelStop n) /\
+  (st_closed r = true <-> l = LRelRead /\ (rd s = RHold (FErr SCEOF) \/ rd s = RHold (FErr SCClosing))) /\
+  (st_err r <> None <-> l = LRelRead /\ rd s = RHold (FErr SCOther)) /\
+  (st_err r = None \/ st_err r = Some SCOther) /\
+  st_stopped r && st_closed r = false.
+Proof. exact flags_go_spec. Qed.
+Print Assumptions c08_flags_go_spec.
+
+(* [last_stop s0 tr i s l]: window i of the run of tr from s0 lies in the stopped period begun by label l in state s *)
+Theorem c08_last_stop_spec : forall s0 tr i s l, last_stop s0 tr i s l <->
+  exists pre mid post oss0 s1 os1,
+    tr = pre ++ l :: mid ++ post /\ length pre + length mid = i /\ ~ In LStart mid /\
+    run s0 pre = Some (s, oss0) /\ step s l = Some (s1, os1) /\ running s = true /\ running s1 = false.
+Proof. exact last_stop_spec. Qed.
+Print Assumptions c08_last_stop_spec.
+
+(* every WaitStatus return between the stop window and the next Start *)
+Theorem c08_status_flags : forall c s l s1 os tr s2 oss, reach c s -> step s l = Some (s1, os) ->
+  running s = true -> running s1 = false -> run s1 tr = Some (s2, oss) -> ~ In LStart tr ->
+  forall os' r, In os' (os :: oss) -> In (OWaitRet r) os' -> flags s l r.
+Proof. exact status_flags. Qed.
+Print Assumptions c08_status_flags.
+
+(* every WaitStatus return of every trace: either the server was never started (zero status), or the flags are those
+   of the window that stopped the current run *)
+Theorem c08_status_flags_trace : forall c tr s oss i os r, run (init_of c) tr = Some (s, oss) ->
+  nth_error oss i = Some os -> In (OWaitRet r) os ->
+  (r = None /\ ~ In LStart (firstn (S i) tr)) \/
+  (exists s0 l, last_stop (init_of c) tr i s0 l /\ flags s0 l r).
+Proof. exact status_flags_trace. Qed.
+Print Assumptions c08_status_flags_trace.
+
+(* errServerStopped is unexported: no Channel returns it from Recv.  Under that assumption on the environment
+   Stopped is reported exactly when the run was ended by a Stop call *)
+Theorem c08_status_flags_nofeed : forall c tr s oss i os r, run (init_of c) tr = Some (s, oss) ->
+  (forall f, In (LFeed f) tr -> f <> FErr SCStop) ->
+  nth_error oss i = Some os -> In (OWaitRet r) os ->
+  (r = None /\ ~ In LStart (firstn (S i) tr)) \/
+  (exists s0 l, last_stop (init_of c) tr i s0 l /\ flags_go s0 l r).
+Proof. exact status_flags_nofeed. Qed.
+Print Assumptions c08_status_flags_nofeed.
+
+(* REFUTED without that assumption (an artefact of the model's type of Recv errors, which contains the sentinel) *)
+Theorem c08_status_stopped_only_by_stop_refuted_without_nofeed :
+  exists oss s, run (init_of ex_cfg) tr_recv_sentinel = Some (s, oss) /\
+    nth_error oss 4 = Some [OClose; OWaitRet (Some SCStop)] /\ st_stopped (Some SCStop) = true /\
+    forall n, ~ In (LRelStop n) tr_recv_sentinel.
+Proof. exact status_stopped_only_by_stop_refuted_without_nofeed. Qed.
+Print Assumptions c08_status_stopped_only_by_stop_refuted_without_nofeed.
 
 (** 4. WaitStatus returns only after every goroutine of the server and every handler has finished. *)
 Theorem c08_wait_after_handlers : forall c s l s' os r, reach c s -> step s l = Some (s', os) ->
